@@ -91,6 +91,14 @@ def e1(out, eng, pr):
 
     def advance(ctx, a, ty, c):
         ctx.events.append(("advance", len(ctx.events)))
+        # the classification is over: pin down which error kind this path is about
+        for e in ctx.events:
+            if e[0] == "op_err":
+                pl = e[1].fields[1]
+                if isinstance(pl, Lazy):
+                    pl = ctx.as_agg(pl)
+                    e[1].fields[1] = pl
+                ctx.variant_of(pl)
         return NotImplemented
     extra = [(r"^<dyn Watchdog as Watchdog>::poll_every$", poll_every), (r"^<dyn Watchdog as Watchdog>::should_stop$", should_stop),
              (r"^<dyn Opcode as Opcode>::execute$", op_execute), (r"^<dyn Opcode as Opcode>::min_gas_cost$", min_gas),
@@ -204,6 +212,7 @@ def e2(out, eng, pr):
     def body(ctx):
         cell = Cell(Lazy("vm::VM", "vm"), "vm")
         r = ctx.run_fn(f, [Ref(Cell(Agg("opcode::control::JumpI"), "self"), ()), Ref(cell, (), True)])
+        jumps.resolve_errors(ctx, r)
         return r, cell, ctx
     try:
         paths = ex.explore(body)
@@ -251,6 +260,7 @@ def e2(out, eng, pr):
     def body_j(ctx):
         cell = Cell(Lazy("vm::VM", "vm"), "vm")
         r = ctx.run_fn(f, [Ref(Cell(Agg("opcode::control::Jump"), "self"), ()), Ref(cell, (), True)])
+        jumps.resolve_errors(ctx, r)
         return r, cell, ctx
     try:
         paths = ex.explore(body_j)
